@@ -116,7 +116,7 @@ Lemma resize1_gather_fwd m c cast (x : list T) pl pr :
   resize1 m Forward c cast x (pl + length x + pr) (Z.of_nat pl)
   = Ok (geti x (IL_of m (length x) pl) ++ x ++ geti x (IR_of m (length x) pr)).
 Proof.
-  intros Hm Hpos Hok. unfold resize1. destruct (gather_not_const m Hm) as [E1 E2].
+  intros Hm Hpos Hok. rewrite resize1_valid by offv. unfold resize1_core. destruct (gather_not_const m Hm) as [E1 E2].
   rewrite E1, E2. cbn [andb negb is_fwd].
   rewrite assign_intersection_grow by exact Hpos.
   pose proof (ap1_gather_mode m Forward (repeat nzero pl) x (repeat nzero pr)) as E.
@@ -130,7 +130,7 @@ Lemma resize1_gather_adj m c cast (A B C : list T) :
   resize1 m Adjoint c cast (A ++ B ++ C) (length B) (Z.of_nat (length A))
   = Ok (add_at (IR_of m (length B) (length C)) C (add_at (IL_of m (length B) (length A)) A B)).
 Proof.
-  intros Hm Hpos Hok. unfold resize1. destruct (gather_not_const m Hm) as [E1 E2].
+  intros Hm Hpos Hok. rewrite resize1_valid by offv. unfold resize1_core. destruct (gather_not_const m Hm) as [E1 E2].
   rewrite E1, E2. cbn [andb negb is_fwd].
   rewrite ap1_gather_mode by assumption. cbn [is_fwd].
   set (B' := add_at _ C _).
